@@ -307,6 +307,11 @@ func safeString(v starlark.Value) string {
 	return v.String()
 }
 
+type tupleKey struct {
+	p *starlark.Value
+	n int
+}
+
 // unfolded is the number of nodes of v counted once per path (the size of its printed form).
 func unfolded(v starlark.Value, memo map[any]float64) float64 {
 	var kids []starlark.Value
@@ -319,6 +324,9 @@ func unfolded(v starlark.Value, memo map[any]float64) float64 {
 		}
 	case starlark.Tuple:
 		kids = x
+		if len(x) > 0 {
+			key = tupleKey{&x[0], len(x)} // shared storage counts with its full size, computed once
+		}
 	case *starlark.Dict:
 		key = x
 		for _, it := range x.Items() {
